@@ -555,3 +555,80 @@ def check_optimised(ck, calls, what):
             k = next((i for i in range(min(len(got), len(normal))) if got[i] != normal[i]), min(len(got), len(normal)))
             ck.fail('the %s decoder gives different output when assertions are disabled (python -O)' % dec,
                     {'op': 'optimised', 'case': dec, 'optimise': True, 'data_hex': data.hex(), 'first_difference': k, 'normal': normal[k:k + 2], 'under_O': got[k:k + 2]}, 'differs_O')
+
+
+LINKFARM_WORKER = r'''
+import json, sys
+sys.dont_write_bytecode = True
+from udparsers.m2c00 import m2c00
+import io_drawer
+out = [io_drawer.__file__]
+for sub, ver, hx in json.load(sys.stdin):
+    try:
+        out.append(json.loads(m2c00.parseUDToJson(sub, ver, memoryview(bytes.fromhex(hx)))))
+    except BaseException as e:
+        out.append({'<raises>': type(e).__name__})
+json.dump(out, sys.stdout)
+'''
+
+
+def check_linkfarm(ck, calls, what):
+    """The shipped I/O-drawer parser module in an installation laid out the way link-farm installers do it (GNU stow, Nix profiles, Bazel
+    runfiles): every python file of the io_drawer package is an individual symbolic link into a store directory, the table files lie next
+    to the LINKS (that is where the package is), and the store holds other files of the same names.  `calls` = [(sub-type, version,
+    bytes)]: each must be shown exactly as this process (running from the source tree) shows it."""
+    import json
+    import shutil
+    import subprocess
+    import tempfile
+    src = os.path.join(common.MODULES, 'io_drawer')
+    try:
+        from udparsers.m2c00 import m2c00
+    except ImportError as e:
+        ck.skip('udparsers.m2c00 unavailable: %r' % e)
+        return
+    root = tempfile.mkdtemp(prefix='linkfarm_')
+    try:
+        store = os.path.join(root, 'store', 'abc123-io_drawer-py')
+        farm = os.path.join(root, 'profile', 'io_drawer')
+        os.makedirs(store)
+        os.makedirs(farm)
+        for n in sorted(os.listdir(src)):
+            p = os.path.join(src, n)
+            if not os.path.isfile(p):
+                continue
+            if n.endswith('.py'):
+                shutil.copy(p, os.path.join(store, n))
+                os.symlink(os.path.join(store, n), os.path.join(farm, n))
+            else:
+                shutil.copy(p, os.path.join(farm, n))
+                # in the store: a file of the same name from "another firmware level" (other field widths / the strings in another order)
+                with open(p, encoding='utf-8', errors='surrogateescape') as f:
+                    lines = f.read().split('\n')
+                other = [l.replace('{ 1,', '{ 2,') if '{ 1,' in l else l.replace('{ 2,', '{ 1,') for l in lines] if n.endswith('.h') else lines[::-1]
+                with open(os.path.join(store, n), 'w', encoding='utf-8', errors='surrogateescape') as f:
+                    f.write('\n'.join(other))
+        env = common.child_env()
+        env['PYTHONPATH'] = os.path.join(root, 'profile') + os.pathsep + env['PYTHONPATH']
+        p = subprocess.run([common.PY, '-W', 'ignore', '-B', '-c', LINKFARM_WORKER], input=json.dumps([(s, v, bytes(d).hex()) for s, v, d in calls]).encode(),
+                           stdout=subprocess.PIPE, stderr=subprocess.PIPE, env=env, timeout=300)
+        try:
+            got = json.loads(p.stdout.decode())
+        except Exception:
+            got = None
+        if not got or len(got) != len(calls) + 1 or not str(got[0]).startswith(farm):
+            ck.disagree('the parser module could not be run from a link-farm installation of the io_drawer package',
+                        {'op': 'linkfarm', 'what': what, 'stderr': p.stderr.decode(errors='replace')[-400:], 'package': (got or [None])[0]})
+            return
+        for (s, v, d), g in zip(calls, got[1:]):
+            try:
+                want = json.loads(m2c00.parseUDToJson(s, v, memoryview(bytes(d))))
+            except Exception as e:  # noqa
+                want = {'<raises>': type(e).__name__}
+            ck.case(key=('linkfarm', s, v, bytes(d)))
+            ck.count('%s through the parser module in a link-farm installation' % what)
+            if g != want:
+                ck.fail('installed as individual symbolic links (table files next to the links), the I/O-drawer parser module shows the data differently than from the source tree',
+                        {'op': 'linkfarm', 'subtype': s, 'version': v, 'data_hex': bytes(d).hex(), 'actual': str(g)[:300], 'expected': str(want)[:300]}, 'linkfarm')
+    finally:
+        shutil.rmtree(root, ignore_errors=True)
